@@ -534,13 +534,16 @@ def run(ctx, only=None):
         payload = {'inputs': [i['name'] for i in inputs], 'deleted_outputs_of': [inputs[v]['name'] for v in victims],
                    'db_rows_uninterrupted_run': [o['name'] for o in db1['rows']],
                    'db_rows_resumed_run': None if db2 is None else [o['name'] for o in db2['rows']]}
-        add_case(key, 'db_eqb (fst (%s)) %s' % (m, db_lit(db2)), payload, 'fst (%s)' % m)
         ctx.count(('both', tag), True)
         dist['db_and_files_runs'] += 1
         got = [] if db2 is None else multiset(db2['rows'])
         recomputed_only = sorted(sum([rows_of[v] for v in victims], []))
         if got == direct:
-            return                                                  # complete database: the defect is gone
+            # complete database: the recorded defect does not reproduce on this tree (property-correct outcome); the model, which
+            # encodes the defect (Model/Batch.v, witnessed by resumed_db_incomplete), is not consulted for this case
+            ctx.notes.append('run:db_file+out_dir_base: the resumed run wrote the COMPLETE database on this tree (recorded defect not reproduced)')
+            return
+        add_case(key, 'db_eqb (fst (%s)) %s' % (m, db_lit(db2)), payload, 'fst (%s)' % m)
         if got == recomputed_only and len(victims) < len(inputs):
             pfail(key, 'run(db_file=..., out_dir_base=...) re-run after an interruption: molecules whose files already exist are skipped and are missing '
                        'from the database the re-run writes (it holds only the recomputed molecules; none is written when all are skipped)',
